@@ -124,7 +124,7 @@ def unforge_signature(data: bytes) -> str:
     :param data: encoded signature.
     :returns: base58 encoded signature (generic)
     """
-    return base58_encode(data, b'sig').decode()
+    return base58_encode(data, b'BLsig' if len(data) == 96 else b'sig').decode()
 
 
 def forge_bool(value: bool) -> bytes:
